@@ -214,7 +214,32 @@ func (e StdEng) Dot(x, y Tensor, opts ...FuncOpt) (retVal Tensor, err error) {
 			if ret, err = e.Inner(a, b); err != nil {
 				return nil, errors.Wrapf(err, opFail, "Dot")
 			}
-			return New(FromScalar(ret)), nil
+
+			// the product is a scalar. Like the matrix products it goes into the reuse tensor when there is one,
+			// and is added to the incr tensor when there is one.
+			expectedShape := ScalarShape()
+			var rd *Dense
+			switch {
+			case reuse != nil:
+				if reuse.Dtype() != a.Dtype() {
+					return nil, errors.Wrapf(errors.Errorf(dtypeMismatch, a.Dtype(), reuse.Dtype()), opFail, "Dot - reuse")
+				}
+				if reuse.Shape().TotalSize() != 1 {
+					return nil, errors.Wrapf(errors.Errorf(shapeMismatch, expectedShape, reuse.Shape()), opFail, "Dot - reuse")
+				}
+				if rd, err = handleReuse(reuse, expectedShape, fo.Safe()); err != nil {
+					return nil, errors.Wrapf(err, opFail, "Dot")
+				}
+				rd.Set(0, ret)
+			default:
+				rd = New(FromScalar(ret))
+			}
+			if incr != nil {
+				if rd, err = handleIncr(rd, fo.Reuse(), incr, expectedShape); err != nil {
+					return nil, errors.Wrapf(err, opFail, "Dot")
+				}
+			}
+			return rd, nil
 		case b.IsMatrix():
 			// the transpose is taken on a shallow copy (same data, metadata of its own): y keeps its
 			// shape and any pending transpose it carries
@@ -315,6 +340,18 @@ func (e StdEng) Dot(x, y Tensor, opts ...FuncOpt) (retVal Tensor, err error) {
 		retVal = reuse
 	} else {
 		retVal = rd
+	}
+
+	if incr != nil {
+		// the product (in the reuse tensor when there is one) is added to the incr tensor, as in the matrix products
+		var res *Dense
+		if res, err = assertDense(retVal); err != nil {
+			return nil, errors.Wrapf(err, opFail, "Dot")
+		}
+		if res, err = handleIncr(res, fo.Reuse(), incr, res.Shape()); err != nil {
+			return nil, errors.Wrapf(err, opFail, "Dot")
+		}
+		retVal = res
 	}
 
 	return
